@@ -24,7 +24,8 @@ CLAIM = dict(
           "laws of 后增 前增 左移 右移 交换 逆序 合并 包含 寻找 首项 末项; out-of-range # and missing keys give the index errors and leave "
           "the collection unchanged, writing a new key inserts. The model is tied to the code on every run: all short histories over a "
           "small alphabet and long random ones (indices 0, negative, > length, fractional, huge, NaN, Inf; duplicate keys; "
-          "nested values) applied to the real objects, results and full dumps compared after every operation, plus programs."),
+          "nested values) applied to the real objects, results and full dumps compared after every operation, plus programs; every "
+          "collection a 'copy' operation duplicated is kept, and any later operation on the copy that changes it (contents or display) is reported."),
     note=TB + ("insertArrayValue is modelled as repaired by fixes/C12-1.patch (negative position beyond the front clamps to the front; the "
                "pinned code panics). Go facts restated, validated by the run: float64->int conversion as on amd64, %v of the "
                "generated numbers, strings.Join. Lists are modelled as element sequences (slice aliasing is C07's). Dictionary `为` "
